@@ -234,6 +234,80 @@ def run(ctx: Ctx) -> None:
     if graph is not None:
         exercise(graph, key)
 
+    # ---- views of a tensor that is later updated in place, and in-place ops with one float input: "same scale" is a
+    #      statement about the tensors that flowed.  The expectations below come from the true mean |x| of those tensors,
+    #      recomputed here eagerly - not from the recorded metadata.
+    import operator as _op
+    from unit_scaling.transforms import prune_same_scale_tensors as _pss
+
+    class InPlaceNet(torch.nn.Module):
+        def __init__(self, shift: float, use_relu: bool) -> None:
+            super().__init__()
+            self.l = torch.nn.Linear(4, 4)
+            self.w = torch.nn.Parameter(torch.tensor([1.0, -2.0, 0.5, 3.0]))
+            self.shift, self.use_relu = shift, use_relu
+
+        def forward(self, x):  # type: ignore[no-untyped-def]
+            h = self.l(x)
+            v = h.view(-1, 4)               # same values as h: same scale
+            s = (v * self.w).sum()
+            h += self.shift                 # in place: the scale of h changes, v's recorded scale must not
+            if self.use_relu:
+                h = torch.nn.functional.relu(h, inplace=True)
+            c = h.contiguous()              # no-op: same scale as its input
+            return c * 2.0, s
+
+    for ci_, (shift_, relu_) in enumerate(((1.0, False), (3.0, True), (-2.0, False), (0.75, True))):
+        for path_ in ("dynamo", "direct"):
+            key = {"path": path_, "module": "view + later in-place update, in-place ops", "shift": shift_, "relu": relu_,
+                   "backward": False}
+            ctx.count(key, bucket=f"{path_}/in-place")
+            graph = None
+            torch.manual_seed(40 + ci_)
+            net_ = InPlaceNet(shift_, relu_)
+            x_ = torch.randn(6, 4)
+            with ctx.guard("C19:track", key):
+                if path_ == "dynamo":
+                    tm = track_scales(net_)
+                    tm(x_.clone())
+                    graph = tm.scales_graph()
+                else:
+                    from unit_scaling.transforms._track_scales import ScaleTrackingBackend as _STB
+                    be_ = _STB()
+                    be_(torch.fx.symbolic_trace(net_), [])(x_.clone())
+                    graph = be_.graph
+            if graph is None:
+                continue
+            with torch.no_grad():
+                h0_ = net_.l(x_)
+                h1_ = h0_ + shift_
+                h2_ = torch.relu(h1_) if relu_ else h1_
+            ma_ = lambda t: float(t.abs().mean())  # noqa: E731
+            for rtol in (2.0 ** -16, 2.0 ** -8):
+                pruned = None
+                with ctx.guard("C19:same-scale:in-place", {**key, "rtol": rtol}):
+                    pruned = _pss(graph, rtol=rtol)
+                if pruned is None:
+                    continue
+                tg_ = [n.target for n in pruned.nodes]
+                def clearly_differs(a: float, b: float) -> bool:
+                    return abs(a - b) > 8 * rtol * max(abs(a), abs(b))
+                problems = []
+                if "view" in tg_:
+                    problems.append("the view of h (identical values, identical scale) was kept")
+                if "contiguous" in tg_:
+                    problems.append("the no-op .contiguous() was kept")
+                if clearly_differs(ma_(h1_), ma_(h0_)) and _op.iadd not in tg_ and _op.add not in tg_:
+                    problems.append("the in-place add, which changes the scale of h, was removed")
+                if relu_ and clearly_differs(ma_(h2_), ma_(h1_)) and not any("relu" in str(t) for t in tg_):
+                    problems.append("the in-place relu, which changes the scale, was removed")
+                if problems:
+                    ctx.violation("C19:same-scale:true-statistics", "same-scale pruning decided against the scales of the tensors "
+                                  "that actually flowed: " + "; ".join(problems), {**key, "rtol": rtol},
+                                  {"mean_abs": {"h": ma_(h0_), "h after +=": ma_(h1_), "after relu": ma_(h2_)},
+                                   "kept_targets": [str(t) for t in tg_]})
+            exercise(graph, key)
+
     if ctx.driver_ok and reqs:
         for (key, got, ids), r in zip(cases, driver.ask(reqs, timeout=1200)):
             if r.get("ids") != ids or r.get("nodes") != got:
